@@ -476,3 +476,12 @@ impl<VM: VMBinding> FreeListAllocator<VM> {
         }
     }
 }
+
+#[cfg(feature = "verif")]
+impl<VM: VMBinding> FreeListAllocator<VM> {
+    /// Verification hook (C35): acquire a block from the space for the bin of `(size, align)`
+    /// exactly as the allocation slow path does (`alloc_slow_once`), without allocating from it.
+    pub(crate) fn verif_acquire_global_block(&mut self, size: usize, align: usize) -> Option<Block> {
+        self.acquire_global_block(size, align, false)
+    }
+}
